@@ -65,6 +65,14 @@ def run(pid, tier):
             c = pgen.make_case(rnd.randrange(1 << 30), 'medium', features={'breaks': True, 'unreachable': False, 'travel_only': False})
             c['steps'] = steps
             c['only'] = ['search', 'search', 'rr']
+        if i % 20 in (2, 12):
+            # every customer job assigned over several tours while conditional jobs wait in `ignored`; mostly search steps
+            c = pgen.relaxed(pgen.make_case(rnd.randrange(1 << 30), 'medium', features={'breaks': True, 'unreachable': False, 'travel_only': False, 'multishift': False}))
+            if i % 20 == 12:
+                from checks.solve_oracle import add_recharge
+                c = add_recharge(c, rnd)
+            c['steps'] = steps
+            c['only'] = ['search', 'search', 'rr']
         if i % 20 in (4, 14):
             # recharge stations (a distance budget per stretch) on most shifts of a small / medium problem
             from checks.solve_oracle import add_recharge
